@@ -83,7 +83,7 @@ def verif_hash(paths):
             files = []
             for d, _, fs in os.walk(root):
                 for f in fs:
-                    if f.endswith((".py", ".v", ".ml", ".rs", ".toml", ".json", ".ebnf", ".txt", ".inputs", ".derives", ".tmpl", ".long")):
+                    if f.endswith((".py", ".v", ".ml", ".rs", ".toml", ".json", ".ebnf", ".txt", ".inputs", ".derives", ".tmpl", ".long", ".inlined")):
                         files.append(os.path.join(d, f))
         for f in sorted(files):
             h.update(f.encode())
